@@ -177,7 +177,7 @@ func init() {
 		Expl: "Regular-language analysis of the gate registry: the 14 patterns are read from the program (constant arguments of regexp.MustCompile stored under the keys of gateRegexHandlers), compiled with regexp/syntax and wrapped as 'contains a match' (the lookup is unanchored); by product/subset constructions against a reference grammar of plonky2's Debug-format identifiers it is decided that every supported identifier is matched by its own pattern and by no other (so the result is independent of Go's randomised map iteration), that identifiers of unimplemented gates (lookup, lookup-table, u32 arithmetic/add-many/subtraction/range-check, comparison, interleave gates, other extension degrees) match no pattern or are refused by the handler; plus: the no-match exit panics and every return is a handler result; each capture group flows through an error-checked strconv parse into the field of the same meaning (dependency analysis per constant map key); registry ↔ Gate implementations is a bijection; circuits with hiding are refused.",
 		Rule: "one obligation per (gate template × pattern), per unimplemented template, per capture group, per parse call, per registry entry"})
 	registerProp(&propDef{ID: "C19", Rules: withState("C19", rulesC19), Floor: 69,
-		Expl: "Decoder discipline: every json.Unmarshal error is checked and refuses (including inside the custom UnmarshalJSON methods); every leaf of the raw decoder structs is uint64/string/bool (so encoding/json itself refuses negative, fractional, over-64-bit values and scalars for lists); every big.Int.SetString uses constant base 10 and its result is used unmerged; copy completeness (each Goldilocks/BN254 leaf of the decoded proof and verifier data depends on the raw field of the same name and on no other raw field — dependency analysis of the decoding entry points); position (every copy loop reachable from the decoders is a plain 0..len-1 loop over a complete list and accesses elements at its own index). Value equality for arbitrary documents is not decided; ReadCommonCircuitData's configuration copy is covered by the positive tests' exact expectations.",
+		Expl: "Decoder discipline: every json.Unmarshal error is checked and refuses (including inside the custom UnmarshalJSON methods); every leaf of the raw decoder structs is uint64/string/bool (so encoding/json itself refuses negative, fractional, over-64-bit values and scalars for lists); every big.Int.SetString uses constant base 10 and its result is used unmerged; copy completeness (each Goldilocks/BN254 leaf of the decoded proof and verifier data depends on the raw field of the same name and on no other raw field — dependency analysis of the decoding entry points); position (every copy loop reachable from the decoders is a plain 0..len-1 loop over a complete list and accesses elements at its own index); unconditional copy (O19.6: every store, append and call of a decoding function executes on every non-refusing path, once per iteration of its loops — no data-dependent skip). Value equality for arbitrary documents is not decided; ReadCommonCircuitData's configuration copy is covered by the positive tests' exact expectations.",
 		Rule: "one obligation per Unmarshal site, raw type, SetString site, decoded leaf, copy loop"})
 	registerProp(&propDef{ID: "C02", Rules: withState("C02", rulesC02), Floor: 38,
 		Expl: "Partial: (W3) every constant width that reaches the n-bit range primitive through the static call graph is a multiple of the commit checker's base width, the only configuration-dependent width is 64 − ProofOfWorkBits and it is a positive multiple of 16 for every common_circuit_data.json in the repository (else commit-based builds panic in the deferred drain); (dispatch) C06's obligations — no backend skips or mis-selects checks, so the verdict cannot depend on the backend through a dropped constraint; (W2) honest fit by the magnitude analysis (abstract interpretation of the gadget layer over upper bounds, context-sensitive, constant-propagating loop counters): in every context reaching a reduction the value is below p·2^n for the quotient width in force, every operand reaching MulAdd / Inverse is canonical (the hints refuse larger ones), no intermediate value reaches the BN254 field, and upper-layer functions exchange canonical values only — for every configuration and proof shape, under the stated input assumption (proof data and constants canonical); (sponge) a partial last chunk keeps the previous lanes, as needed for the 97-input circuit; (HB) honest hints fit: for every NewHint site the outputs are traced (field- and call-site-sensitive) to the range check their gadget applies, and an interval analysis of the hint body with the facts of its dominating branches shows that the value stored into results[k] stays below that bound on every path returning nil and is never a possibly-nil *big.Int. Acceptance of concrete proofs (the algebraic identities themselves) is not decided.",
@@ -185,7 +185,7 @@ func init() {
 	registerProp(&propDef{ID: "C10", Rules: withState("C10", func(cx *Ctx) []Obligation {
 		return append(append(rulesC10(cx), rulesMulAcc(cx, "C10", "poseidon")...), ruleNoEmptyLimb(cx)...)
 	}), Floor: 10,
-		Expl: "Narrow structural clauses only — the injectivity half of C10: in HashNoPad and HashOrNoop the limbs are packed by a loop accumulator acc' = acc + limb_k·base^k (recurrence extracted from the SSA phi; base a compile-time constant ≥ 2^64; exponent = the limb's own index; number of limbs per element bounded — by the slice bounds lo+c / min(_, lo+c) or by a dominating len(input) ≤ c — with base^T ≤ r), and ToVec splits the canonical bit decomposition (no explicit width) into consecutive disjoint chunks of ≤ 63 bits. Plus the MulAcc accumulator discipline (MA) at every MulAcc site of the poseidon package (BN254 permutation, packing): the accumulator is owned and dead after the call, so the computed hash does not depend on the R1CS builder re-using storage. Plus absorb tiling: the chunk and limb loops of HashNoPad tile [0, len(input)) — start 0, while index < len, stride equal to the width of the window [i, min(len, i+W)) — so every element is absorbed exactly once for every length. Agreement of the BN254 Poseidon permutation, sponge and shortcut with the reference PoseidonBN128 for all inputs is numeric and not decided.",
+		Expl: "Narrow structural clauses only — the injectivity half of C10: in HashNoPad and HashOrNoop the limbs are packed by a loop accumulator acc' = acc + limb_k·base^k (recurrence extracted from the SSA phi; base a compile-time constant ≥ 2^64; exponent = the limb's own index; number of limbs per element bounded — by the slice bounds lo+c / min(_, lo+c) or by a dominating len(input) ≤ c — with base^T ≤ r), and ToVec splits the canonical bit decomposition (no explicit width) into consecutive disjoint chunks of ≤ 63 bits. Plus the MulAcc accumulator discipline (MA) at every MulAcc site of the poseidon package (BN254 permutation, packing): the accumulator is owned and dead after the call, so the computed hash does not depend on the R1CS builder re-using storage. Plus absorb tiling: the chunk and limb loops of HashNoPad tile [0, len(input)) — start 0, while index < len, stride equal to the width of the window [i, min(len, i+W)) — so every element is absorbed exactly once for every length; every return of HashNoPad hands back element 0 of the sponge state (no shortcut return for some lengths). Agreement of the BN254 Poseidon permutation, sponge and shortcut with the reference PoseidonBN128 for all inputs is numeric and not decided.",
 		Rule: "one obligation per packing accumulator, for the chunking, the tiling, and per MulAcc site"})
 	registerProp(&propDef{ID: "C15", Rules: withState("C15", rulesC15), Floor: 9,
 		Expl: "Narrow structural clauses only — the selector-filtering and position-wise-sum half of C15, decided on the SSA of plonk/gates: EvaluateGateConstraints calls evalFiltered once for every gate with the gate's own row, selectorIndices[i], groups[selectorIndices[i]] and NumSelectors(); the results are added position-wise into a zeroed vector of numGateConstraints that is returned; evalFiltered reads the selector constant before RemovePrefix, strips exactly numSelectors constants before the gate sees them, multiplies every returned constraint by the filter; computeFilter is ∏(i−s) over [start,end) skipping exactly i = row, times (UNUSED_SELECTOR−s) iff several selectors, UNUSED_SELECTOR = 2^32−1. Equality of each Gate.EvalUnfiltered with plonky2's gate polynomial for all wire values is numeric and NOT decided.",
